@@ -50,3 +50,14 @@ Example C07_nonvacuous :
     = [ {| dr_model := "orders"; dr_dim := "status"; dr_gran := None |}; {| dr_model := "orders"; dr_dim := "created"; dr_gran := Some "month" |} ]%string
   /\ gran_errors ex_models {| dr_model := "orders"; dr_dim := "status"; dr_gran := Some "month" |}%string = 1.
 Proof. split; reflexivity. Qed.
+
+Require V.Model.SmallFns V.Gen.Small_gen V.Proofs.Small_proofs.
+
+(* `reference__granularity`, regenerated: Gen/Small_gen.v holds what SQLGenerator._parse_dimension_refs returns on scripted references, extracted from generator.py
+   on every run.  The model (split at the LAST "__") agrees on every row, and for ANY reference text p and any granularity word g (letters only) the reference
+   p__g is read back as (p, g): the requested granularity is never confused with part of the dimension's name. *)
+Theorem C07_dimref_table : forallb V.Model.SmallFns.dimref_row_ok V.Gen.Small_gen.dimref_rows = true.
+Proof. exact V.Proofs.Small_proofs.dimref_table_ok. Qed.
+Theorem C07_dimref_roundtrip : forall p g, V.Model.SmallFns.all_chars V.Proofs.Small_proofs.is_letter g = true ->
+  V.Model.SmallFns.parse_dimref (p ++ "__" ++ g)%string = (p, Some g).
+Proof. exact V.Proofs.Small_proofs.parse_dimref_roundtrip. Qed.
